@@ -54,4 +54,4 @@ def main():
 
 
 if __name__ == '__main__':
-    main()
+    guarded(main)
